@@ -13,7 +13,7 @@ META = dict(
               "protected values; error codes per attribute access; executable monitor over a reference semantics of link "
               "security (AttSrvSpecVal.v). Tie: generated server<> instantiations with every placement of "
               "requires_encryption / no_encryption_required / may_require_encryption, three link states, all request kinds",
-    level_note="proved (unbounded, every configuration, no wf needed): non-interference of every operation acting through an unencrypted connection (l2cap_input with all 14 handlers, l2cap_output, application operations) for states that differ only in protected values, lifted to histories of any length; integrity of protected values; per attribute access the refusal without effect with 0x05 (no key) / 0x0F (key) for protected values and CCCDs; spec_protected = characteristic_requires_encryption for all option placements; the monitor accepts every model trace without Read By Type / Read Multiple / l2cap_output. Only monitored / tied: the monitor's scans of Read By Type / Read Multiple responses and of l2cap_output for protected handles; the connection-wide statement that protected CCCD bits stay unchanged (Definition C05_protected_cccd_unchanged_full; needs injectivity of cccd_position). See docs/C05.md")
+    level_note="proved (unbounded): non-interference of every operation acting through an unencrypted connection (l2cap_input with all 14 handlers, l2cap_output, application operations; every configuration, no wf needed) lifted to histories of any length; integrity of protected values; connection wide integrity of the CCCD bits of every protected characteristic (store well formed, which holds in every reachable state; uses C09's lens and injectivity of cccd_position); per attribute access the refusal without effect with 0x05 (no key) / 0x0F (key); spec_protected = characteristic_requires_encryption for all option placements; the monitor accepts every model trace: all configurations for histories without Read By Type / Read Multiple / l2cap_output, and ALL histories (scanned responses included) for well formed configurations without include_service<> and requests made of bytes. Nothing is left unproved; with include_service<> the scans are tied only (the handle mapping has no inverse law there: C04's finding). See docs/C05.md")
 
 
 class C05(AttBase):
